@@ -599,6 +599,7 @@ def run(ctx):
                f're-applied to the join result in one QueryStep on a copy; steps added: {len(added)}', file=PJ, line=fn['plan'].lineno,
                witness='select distinct a.x from int1.a join int2.b on ...')
     rows += check_where_kept(ctx, fn, cmp_)
+    check_condition_scope(ctx, fn, 'C08.condition-scope')
     # ---- a sub-select member of a join: the outer conditions on it are applied to its RESULT, never written into it -------------------------------------
     psub = fn.get('process_subselect')
     ctx.need(psub is not None, 'PlanJoinTablesQuery.process_subselect not found')
@@ -843,6 +844,53 @@ def run(ctx):
     ctx.floor('limit_gate_rows', 1000)
     ctx.floor('limit_push_rows', 150)
     ctx.floor('join_kinds', 10)
+
+
+def check_condition_scope(ctx, fn, rule):
+    """Which table a qualified column belongs to decides which fetch receives its condition.  get_join_sequence + resolve_table interpreted on join members whose
+    aliases collide with the real names of other members, then get_table_for_column: the alias wins over the name of another (aliased) member, in either order."""
+    gjs, gt = fn.get('get_join_sequence'), fn.get('get_table_for_column')
+    ctx.need(gjs is not None and gt is not None, 'PlanJoinTablesQuery.get_join_sequence / get_table_for_column not found')
+    n = 0
+    scenarios = [
+        ('int1.t AS a JOIN int2.a AS b', [(['int1', 't'], 'a'), (['int2', 'a'], 'b')], {'a.x': 0, 'A.x': 0, 'b.x': 1}),
+        ('int1.a AS b JOIN int2.t AS a', [(['int1', 'a'], 'b'), (['int2', 't'], 'a')], {'a.x': 1, 'b.x': 0, 'B.x': 0}),
+        ('int1.t AS a JOIN int2.u AS b JOIN int3.a AS c', [(['int1', 't'], 'a'), (['int2', 'u'], 'b'), (['int3', 'a'], 'c')], {'a.x': 0, 'b.x': 1, 'c.x': 2}),
+        ('int1.orders JOIN int2.items AS orders2', [(['int1', 'orders'], None), (['int2', 'items'], 'orders2')], {'orders.x': 0, 'int1.orders.x': 0, 'orders2.x': 1}),
+    ]
+    for title, members_, cols in scenarios:
+        members = [Obj('Identifier', parts=list(pp_), alias=(Obj('Identifier', parts=[al], alias=None) if al else None)) for pp_, al in members_]
+        j = members[0]
+        for m in members[1:]:
+            j = Obj('Join', left=j, right=m, condition=None, join_type='join', implicit=False, alias=None)
+        planner = Obj('QueryPlanner', default_namespace='mindsdb', databases=['int1', 'int2', 'int3', 'mindsdb'])
+        self_ = new_pjt(planner=planner, tables_idx={}, tables=[])
+        stubs = base_stubs()
+        stubs['self.planner.get_predictor'] = lambda it, n_: None
+        stubs['copy.deepcopy'] = lambda it, x: x.clone() if isinstance(x, Obj) else x
+        it = interp_for(stubs)
+        it.isa.update({'Join': set(), 'Identifier': set()})
+        try:
+            it.call_function(gjs, [self_, j], {}, _env())
+        except Raised as r:
+            ctx.ob(rule, f'scope:{title}', False, f'get_join_sequence raises {r.exc_name} on {title}', file=PJ, line=gjs.lineno)
+            continue
+        by_alias = {}
+        for ti in self_.tables:
+            al = ti.table.alias.parts[-1] if ti.table.alias is not None else None
+            for k_, (pp_, al_) in enumerate(members_):
+                if al_ == al and [str(x).lower() for x in ti.table.parts][-1] == pp_[-1]:
+                    by_alias[id(ti)] = k_
+        for col, want in cols.items():
+            got = interp_for(base_stubs()).call_function(gt, [self_, Obj('Identifier', parts=col.split('.'), alias=None)], {}, _env())
+            gi = by_alias.get(id(got)) if got is not None else None
+            n += 1
+            ctx.ob(rule, f'scope:{title}:{col}', gi == want,
+                   f'in `{title}` the column {col} is attributed to member {gi} ({"none" if got is None else _show(got.table)}), expected member {want}: a table with an '
+                   f'alias is referenced by the alias; the real name of another member never takes the alias over (its condition would be pushed into the wrong fetch)',
+                   file=PJ, line=gjs.lineno, witness=f'select * from {title.replace(" AS ", " ").replace("JOIN", "join")} on ... where a.x = 1')
+    ctx.setcount('condition_scope_rows', n)
+    ctx.floor('condition_scope_rows', 12)
 
 
 def check_where_kept(ctx, fn, cmp_):
